@@ -163,8 +163,8 @@ Lemma page_counters_untouched : forall styles v, Forall untouched styles ->
 Proof.
   induction styles as [|st r IH]; intros v H; [reflexivity|].
   inversion H as [|? ? Hst Hr]; subst. cbn [page_counters List.length seq map].
-  rewrite (untouched_step st v Hst). f_equal; [f_equal; lia|].
-  rewrite IH by exact Hr. cbn [oz]. rewrite <- seq_shift, map_map. apply map_ext. intros k. f_equal. lia.
+  rewrite (untouched_step st v Hst). change (Z.of_nat 1) with 1. f_equal.
+  rewrite IH by exact Hr. cbn [oz]. rewrite <- (seq_shift (List.length r) 1), map_map. apply map_ext. intros k. f_equal. lia.
 Qed.
 
 (* counter(page) numbers the pages 1, 2, 3, ... when no @page rule manipulates it *)
@@ -184,10 +184,7 @@ Proof.
   intros Hr Hs Hi Ha. revert v0. induction before as [|b bs IH]; intros v0.
   - cbn [app page_counters].
     assert (E : update_page_counter v0 (standardize st true) = Some x).
-    { unfold standardize. rewrite Hr, Hs, Hi. cbn [touches_page existsb fst String.eqb orb negb andb].
-      rewrite String.eqb_refl. cbn [orb negb andb update_page_counter drop_pages filter fst String.eqb].
-      change (("page" =? "pages")%string) with false. cbn [negb fold_left apply_reset fst snd].
-      rewrite String.eqb_refl.
+    { unfold standardize. rewrite Hr, Hs, Hi. simpl.
       rewrite (fold_noop apply_set _ set_noop (drop_pages_no_page _ Hs)).
       rewrite (fold_noop apply_incr _ incr_noop (drop_pages_no_page _ Hi)). reflexivity. }
     rewrite E. f_equal. rewrite (page_counters_untouched after (Some x) Ha). reflexivity.
@@ -199,12 +196,10 @@ Theorem counter_increment_on_page_rule (st : cstyle) (n : Z) v :
   c_incr st = Some [("page", n)] -> touches_page (c_set st) = false -> touches_page (c_reset st) = false ->
   update_page_counter v (standardize st true) = Some (oz v + n).
 Proof.
-  intros Hi Hs Hr. unfold standardize. rewrite Hr, Hs, Hi. cbn [touches_page existsb fst String.eqb orb negb andb].
-  rewrite String.eqb_refl. rewrite !orb_true_r. cbn [negb andb update_page_counter drop_pages filter fst].
-  change (("page" =? "pages")%string) with false. cbn [negb].
+  intros Hi Hs Hr. unfold standardize. rewrite Hr, Hs, Hi. simpl.
   rewrite (fold_noop apply_reset _ reset_noop (drop_pages_no_page _ Hr)).
   rewrite (fold_noop apply_set _ set_noop (drop_pages_no_page _ Hs)).
-  cbn [fold_left apply_incr fst snd]. rewrite String.eqb_refl. reflexivity.
+  reflexivity.
 Qed.
 
 (* margin boxes never increment automatically *)
@@ -235,15 +230,17 @@ Proof.
       cbn [List.concat nth]. rewrite IH. now rewrite app_assoc.
 Qed.
 
+Lemma last_cons (l : list Z) : forall x d, last (x :: l) d = last l x.
+Proof.
+  induction l as [|z l IH]; intros x d; [reflexivity|].
+  change (last (x :: z :: l) d) with (last (z :: l) d). rewrite (IH z d), (IH z x). reflexivity.
+Qed.
 Lemma last_app_cons (a : list Z) x l d : last (a ++ x :: l) d = last l x.
 Proof.
-  revert d. induction a as [|y a IH]; intros d.
-  - simpl. revert x d. induction l as [|z l IHl]; intros x d; [reflexivity|].
-    change (last (x :: z :: l) d) with (last (z :: l) d). rewrite IHl. reflexivity.
-  - change ((y :: a) ++ x :: l) with (y :: (a ++ x :: l)).
-    destruct (a ++ x :: l) eqn:E; [destruct a; discriminate|]. rewrite <- E.
-    change (last (y :: a ++ x :: l) d) with (match a ++ x :: l with [] => y | _ => last (a ++ x :: l) d end).
-    rewrite E. rewrite <- E. apply IH.
+  induction a as [|y a IH]; [apply last_cons|].
+  change ((y :: a) ++ x :: l) with (y :: (a ++ x :: l)). rewrite last_cons.
+  destruct a as [|y' a]; [apply last_cons|].
+  change ((y' :: a) ++ x :: l) with (y' :: (a ++ x :: l)) in *. rewrite last_cons in *. exact IH.
 Qed.
 
 Lemma last_opt_app a b : last_opt (a ++ b) = match b with [] => last_opt a | x :: l => Some (last l x) end.
@@ -267,7 +264,6 @@ Theorem string_first_last_start_except (st : sstore) (current : nat) (kw : keywo
 Proof.
   unfold get_string, string_spec, entry_value, before_page. rewrite search_back_spec.
   destruct (page_assignments st current) as [|x l]; destruct kw; try reflexivity.
-  destruct first_element_assigns; reflexivity.
 Qed.
 
 (* what `last` shows on a page is what the next page starts with *)
